@@ -218,7 +218,47 @@ pub fn features() -> Vec<(&'static str, Vec<Item>)> {
     let mut all = base_features();
     all.extend(conversion_features());
     all.push(("operand-conversions", operand_conversions()));
+    all.push(("result-conversions", result_conversions()));
     all
+}
+
+fn ty_of(t: &str) -> Ty {
+    if let Some(inner) = t.strip_prefix("list<").and_then(|x| x.strip_suffix('>')) {
+        return list(ty_of(inner));
+    }
+    if let Some(n) = t.strip_prefix("bits<").and_then(|x| x.strip_suffix('>')) {
+        return Ty::Bits(n.parse().unwrap_or(1));
+    }
+    match t {
+        "bit" => Ty::Bit,
+        "int" => Ty::Int,
+        "string" => Ty::Str,
+        "code" => Ty::Code,
+        "dag" => Ty::Dag,
+        c => Ty::Class(c.to_string()),
+    }
+}
+
+/// Which declared types the result of each operator form may initialise: `result_conversions.tsv` lists the
+/// (slot type, call) pairs llvm-tblgen 14 accepts at type level - the operands are the template parameters of
+/// a class that is never instantiated, so nothing folds (tools/gen_result_conversions.py; audited again by the
+/// thorough tier). One field per pair.
+pub fn result_conversions() -> Vec<Item> {
+    let fields: Vec<BI> = include_str!("result_conversions.tsv")
+        .lines()
+        .filter_map(|l| l.split_once('\t'))
+        .enumerate()
+        .map(|(i, (t, e))| f(ty_of(t), &format!("rc{i}"), E::Raw(e.to_string())))
+        .collect();
+    let p = |ty: Ty, n: &str| TArg { ty, name: n.into(), default: None };
+    vec![Item::Class {
+        doc: vec![],
+        blank: false,
+        name: "ResConv".into(),
+        targs: vec![p(Ty::Int, "pi"), p(Ty::Bit, "pb"), p(Ty::Bits(2), "p2"), p(Ty::Str, "ps"), p(list(Ty::Int), "pli"), p(list(Ty::Bit), "plb"), p(list(Ty::Str), "pls"), p(class_a(), "pa")],
+        parents: vec![],
+        body: Some(fields),
+    }]
 }
 
 /// Operator calls whose operands are values of declared types that convert to what the operator takes
@@ -389,6 +429,15 @@ fn base_features() -> Vec<(&'static str, Vec<Item>)> {
             ],
         ),
         (
+            // a parameter without default declared after one that has a default
+            "non-trailing-default",
+            vec![
+                c("ND", vec![ti("a"), TArg { ty: Ty::Int, name: "b".into(), default: Some(int(1)) }, TArg { ty: Ty::Str, name: "c".into(), default: None }], vec![], Some(vec![f(Ty::Str, "held", id("c"))])),
+                def("nd1", vec![CRef::with("ND", vec![int(5), int(2), s("s")])], None),
+                def("nd2", vec![], Some(vec![f(Ty::Class("ND".into()), "k", E::ClassVal("ND".into(), vec![int(5), int(2), s("s")], vec![]))])),
+            ],
+        ),
+        (
             "class-values",
             vec![def(
                 "cv",
@@ -528,7 +577,7 @@ pub fn valid_programs(pairs: bool, mut f: impl FnMut(&Program, &str) -> bool) {
             }
         }
     }
-    combos.push((0..feats.len()).filter(|&i| !feats[i].0.starts_with("conversions") && feats[i].0 != "operand-conversions").collect());
+    combos.push((0..feats.len()).filter(|&i| !feats[i].0.starts_with("conversions") && feats[i].0 != "operand-conversions" && feats[i].0 != "result-conversions").collect());
     for combo in combos {
         let tag: String = combo.iter().map(|&i| feats[i].0).collect::<Vec<_>>().join("+");
         let body: Vec<Item> = combo.iter().flat_map(|&i| feats[i].1.clone()).collect();
@@ -692,6 +741,11 @@ pub fn faults(em: &Emitted) -> Vec<Fault> {
         if al.has_list && al.required > 0 && al.positional > 0 {
             // the whole argument list removed: a bare reference to a class with a parameter that has no default
             out.push(Fault { class: "missing-template-argument", file: al.file, span: (al.name_range.1, al.insert_at + 1), text: String::new(), site: al.name_range });
+        }
+        for t in &al.truncations {
+            // the list cut down to its first k arguments: a parameter without default (also one declared after a
+            // parameter that has one) is left without value
+            out.push(Fault { class: "missing-template-argument", file: al.file, span: *t, text: String::new(), site: al.name_range });
         }
         if let (Some(last), true) = (al.last_arg, al.named == 0 && al.positional > 0 && al.positional <= al.required) {
             // removing the last positional argument leaves a parameter without value
